@@ -24,11 +24,13 @@ import (
 	"context"
 	"fmt"
 	"net"
+	"strings"
 	"testing"
 
 	"golang.org/x/crypto/chacha20poly1305"
 
 	"github.com/postalsys/muti-metroo/internal/config"
+	"github.com/postalsys/muti-metroo/internal/crypto"
 	"github.com/postalsys/muti-metroo/internal/protocol"
 	"github.com/postalsys/muti-metroo/internal/vmc"
 	"github.com/postalsys/muti-metroo/internal/vmc/vnet"
@@ -136,8 +138,8 @@ func c04Run(r *vmc.Result, cs c04Case) {
 	before := len(nt.sentSnapshot())
 	up := nsMarked(c04Marker+"UP-", cs.Size)
 	down := nsMarked(c04Marker+"DOWN-", cs.Size)
-	var key [32]byte
-	haveKey := false
+	var key, exitKey [32]byte
+	haveKey, haveExitKey := false, false
 	switch cs.Kind {
 	case "tcp", "forward":
 		t := tgt
@@ -182,7 +184,7 @@ func c04Run(r *vmc.Result, cs c04Case) {
 		nt.run(nil, 100000)
 		tc.Close()
 		nt.run(nil, 100000)
-	case "udp", "udp-tampering-transit":
+	case "udp", "udp-tampering-transit", "udp-replaying-transit":
 		sz := cs.Size
 		if sz > 1400 {
 			sz = 1400
@@ -206,6 +208,49 @@ func c04Run(r *vmc.Result, cs c04Case) {
 			// an honest ingress that refuses to send is fine (e.g. a repaired ingress refusing a key-less ACK)
 			r.Outcome(cs.Kind + "|refused:" + err.Error())
 		}
+		if cs.Kind == "udp-replaying-transit" && err == nil {
+			// the first transit sends the UDP_OPEN_ACK it relayed once more (both endpoints honest,
+			// nothing forged: a byte-identical repetition), then the client sends another datagram
+			var ack []byte
+			for _, s := range nt.sentSnapshot()[before:] {
+				if s.From == 1 && s.To == 0 {
+					if f, derr := protocol.Decode(s.Bytes); derr == nil && f.Type == protocol.FrameUDPOpenAck {
+						ack = s.Bytes
+					}
+				}
+			}
+			if ack == nil {
+				r.HarnessError("C04 %v: no UDP_OPEN_ACK seen on n1->n0", cs)
+				return
+			}
+			nt.logSent(1, 0, ack)
+			if _, ierr := nt.inject(1, 0, ack); ierr != nil {
+				r.HarnessError("C04 %v: replaying the ACK: %v", cs, ierr)
+				return
+			}
+			nt.run(nil, 100000)
+			_, err2, ok2 := nsCall(nt, func() (int, error) {
+				return 0, A.RelayUDPDatagram(base, sa, uint16(sa.Port), protocol.AddrTypeIPv4, sa.IP.To4(), up)
+			})
+			if !ok2 {
+				r.HarnessError("C04 %v: second RelayUDPDatagram did not return", cs)
+				return
+			}
+			nt.run(nil, 100000)
+			if err2 != nil {
+				r.Outcome(cs.Kind + "|refused-after-replay:" + err2.Error())
+			}
+		}
+		// the key the honest EXIT holds for this association (its stream id is the one on the last link)
+		for _, s := range nt.sentSnapshot()[before:] {
+			if s.To == last {
+				if f, derr := protocol.Decode(s.Bytes); derr == nil && f.Type == protocol.FrameUDPOpen {
+					if k, hasKey, found := nt.agents[last].udpHandler.VerifSessionKey(f.StreamID); found && hasKey {
+						exitKey, haveExitKey = k, true
+					}
+				}
+			}
+		}
 		A.udpIngressMu.RLock()
 		for _, lk := range A.udpIngressByLocalStream {
 			lk.Dest.mu.RLock()
@@ -218,9 +263,32 @@ func c04Run(r *vmc.Result, cs c04Case) {
 		A.CloseUDPAssociation(base)
 		nt.run(nil, 100000)
 	}
+	// the key an observer of the handshake could compute (UDP kinds)
+	var pubKey [32]byte
+	pubKeyOK := false
+	{
+		var open *protocol.UDPOpen
+		var ack *protocol.UDPOpenAck
+		for _, s := range nt.sentSnapshot()[before:] {
+			f, derr := protocol.Decode(s.Bytes)
+			if derr != nil {
+				continue
+			}
+			if f.Type == protocol.FrameUDPOpen && s.From == 0 && open == nil {
+				open, _ = protocol.DecodeUDPOpen(f.Payload)
+			}
+			if f.Type == protocol.FrameUDPOpenAck && s.From == last && ack == nil {
+				ack, _ = protocol.DecodeUDPOpenAck(f.Payload)
+			}
+		}
+		if open != nil && ack != nil {
+			pubKey, pubKeyOK = c04PublicKey(ack.RequestID, open.EphemeralPubKey, ack.EphemeralPubKey)
+		}
+	}
 	// inspect every frame written during the case, on every link
 	probe := []byte(c04Marker)[:8]
 	dataFrames := 0
+	nonces := c04Nonces{}
 	for _, s := range nt.sentSnapshot()[before:] {
 		f, err := protocol.Decode(s.Bytes)
 		if err != nil {
@@ -240,12 +308,27 @@ func c04Run(r *vmc.Result, cs c04Case) {
 				if !haveKey || !c04Open(key, f.Payload) {
 					fail("not-sealed-under-tunnel-key", fmt.Sprintf("STREAM_DATA payload (%d bytes) on n%d->n%d does not open under the tunnel's session key", len(f.Payload), s.From, s.To))
 				}
+				// one hop only: the same frame is relayed unchanged over the other links
+				if (s.From == 0 || s.From == last) && !nonces.add(key, f.Payload) {
+					fail("nonce-reused-under-tunnel-key", fmt.Sprintf("two STREAM_DATA payloads written by n%d carry the same nonce under the tunnel's key", s.From))
+				}
 			}
 		case protocol.FrameUDPDatagram:
 			if dg, err := protocol.DecodeUDPDatagram(f.Payload); err == nil && len(dg.Data) > 0 {
 				dataFrames++
 				if !haveKey || !c04Open(key, dg.Data) {
 					fail("not-sealed-under-tunnel-key", fmt.Sprintf("UDP datagram body (%d bytes) on n%d->n%d does not open under the tunnel's session key (ingress holds a key: %v)", len(dg.Data), s.From, s.To, haveKey))
+				}
+				if (s.From == 0 || s.From == last) && (!nonces.add(key, dg.Data) || (haveExitKey && exitKey != key && !nonces.add(exitKey, dg.Data))) {
+					fail("nonce-reused-under-tunnel-key", fmt.Sprintf("two UDP datagram bodies written by n%d carry the same nonce under one session key", s.From))
+				}
+				if pubKeyOK && c04Open(pubKey, dg.Data) {
+					fail("sealed-under-a-key-the-transit-can-compute", fmt.Sprintf("UDP datagram body (%d bytes) on n%d->n%d opens under the key derived from an all-zero private scalar and the public handshake values: every agent that relayed the handshake can read it", len(dg.Data), s.From, s.To))
+				}
+				// towards the exit: it must be the key the honest exit agreed on, not merely "a" key the
+				// ingress holds (a key both ends do not share is one somebody else may be able to compute)
+				if s.From < s.To && (!haveExitKey || !c04Open(exitKey, dg.Data)) {
+					fail("not-sealed-under-the-exits-key", fmt.Sprintf("UDP datagram body (%d bytes) on n%d->n%d does not open under the session key the exit holds (exit holds a key: %v)", len(dg.Data), s.From, s.To, haveExitKey))
 				}
 			}
 		}
@@ -268,6 +351,31 @@ func c04Run(r *vmc.Result, cs c04Case) {
 		r.Nontrivial(fmt.Sprintf("%d|%s|frames=%d", cs.Transits, cs.Kind, dataFrames))
 	}
 	r.Outcome(fmt.Sprintf("%d|%s|%d|%d", cs.Transits, cs.Kind, cs.Size, dataFrames))
+}
+
+// c04Nonces records the explicit 12-byte nonce of every sealed body that opens under a tunnel key; the
+// same nonce twice under one key is a two-time pad: the XOR of the two plaintexts is readable by every
+// agent on the path.
+type c04Nonces map[string]int
+
+func (n c04Nonces) add(key [32]byte, sealed []byte) bool {
+	if len(sealed) < 28 || !c04Open(key, sealed) {
+		return true
+	}
+	k := string(key[:]) + string(sealed[:12])
+	n[k]++
+	return n[k] == 1
+}
+
+// c04PublicKey is the session key anybody who watched the handshake can compute when an endpoint runs
+// the key agreement with an all-zero private scalar: X25519(0, responderPub) and the public values.
+func c04PublicKey(reqID uint64, initiatorPub, responderPub [32]byte) ([32]byte, bool) {
+	var zero [32]byte
+	shared, err := crypto.ComputeECDH(zero, responderPub)
+	if err != nil {
+		return zero, false
+	}
+	return crypto.DeriveSessionKey(shared, reqID, initiatorPub, responderPub, true).Key(), true
 }
 
 func relaySizesC04(t *relayTable) (int, int) {
@@ -300,9 +408,9 @@ func TestVerif_C04(t *testing.T) {
 		sizes = []int{0, 1, 7, 8, 17, 1000, 16355, 16356, 16357, 16384, 32712, 32713, 40000, 100000}
 	}
 	for _, tr := range []int{1, 2} {
-		for _, kind := range []string{"tcp", "forward", "udp", "udp-tampering-transit"} {
+		for _, kind := range []string{"tcp", "forward", "udp", "udp-tampering-transit", "udp-replaying-transit"} {
 			for _, sz := range sizes {
-				if (kind == "udp" || kind == "udp-tampering-transit") && sz > 1400 && sz != 16356 {
+				if strings.HasPrefix(kind, "udp") && sz > 1400 && sz != 16356 {
 					continue
 				}
 				if r.Expired() {
